@@ -121,6 +121,11 @@ def _post_done(engine, st, ctx, out):
     return cl
 
 
+def _owner_sid(st, ctx):
+    """id of the executor whose lock must be the one held (the shutdown gate's lock has the same field name)."""
+    return ctx["sid"]
+
+
 UNITS = [
     Unit("ThrottleExecutor._eval_throttle", "throttle.ThrottleExecutor._eval_throttle", ["C07", "C18"], _setup_eval, _post_eval,
          cfg=_cfg, self_cls="ThrottleExecutor"),
@@ -194,7 +199,8 @@ def _cfg_iter():
         out.append(("at every commit the in-flight counter stays within the count read in this iteration (None = unlimited)",
                     z3.Implies(z3.Not(Val.is_none(tt)), Val.i(incs[0].args[0]) <= Val.i(tt))))
         out.append(("the counter is the executor's own in-flight counter", incs[0].recv == Val.id(st.get("_running_count", sid))))
-        out.append(("THROTTLE_QUEUE gauge is decremented exactly once per dequeued job", z3.BoolVal(len(decs) == 1 and decs[0].meth == "dec")))
+        out.append(("THROTTLE_QUEUE gauge is decremented exactly once per dequeued job, in the same critical section",
+                    z3.BoolVal(len(decs) == 1 and decs[0].meth == "dec" and all(any(h[3] == "_lock" and h[2] is not None and z3.is_true(z3.simplify(h[2] == Val.id(exv.t))) for h in (e.held or [])) for e in decs))))
         return out
     cfg.loops[("more_executors._impl.throttle._submit_loop_iter", 0)] = LoopSpec(body_post=commit_post)
 
@@ -351,7 +357,8 @@ def _post_do_cancel(engine, st, ctx, out):
         cl.append(("the job removed from the queue is the one of the future being cancelled", "PC",
                    st.get("future", Val.id(pops[0].args[0])) == ctx["fut"].t, ["C06", "C07"]))
         decs = [e for e in st.trace if e.kind == "metric" and e.callee == "THROTTLE_QUEUE" and e.meth == "dec"]
-        cl.append(("THROTTLE_QUEUE gauge is decremented when a queued job is removed by cancel", "PC", len(decs) == 1, ["C20"]))
+        cl.append(("THROTTLE_QUEUE gauge is decremented when a queued job is removed by cancel, in the same critical section", "PC",
+                   z3.And(z3.BoolVal(len(decs) == 1), z3.BoolVal(all(any(h[3] == "_lock" and h[2] is not None and z3.is_true(z3.simplify(h[2] == _owner_sid(st, ctx))) for h in (e.held or [])) for e in decs))), ["C20"]))
     return cl
 
 
@@ -421,6 +428,8 @@ def _post_submit(engine, st, ctx, out):
                    z3.BoolVal(bool(sets) and max(sets) > apps[0][0]), ["C07", "C03"]))
         cl.append(("THROTTLE_QUEUE gauge is incremented exactly once per enqueued job", "PC",
                    z3.BoolVal(len(incs) == 1 and incs[0].meth == "inc"), ["C20"]))
+        cl.append(("the gauge moves in the same critical section as the queue (THROTTLE_QUEUE = queue length whenever the lock is free: never negative on the way)", "MI",
+                   z3.BoolVal(all(any(h[3] == "_lock" and h[2] is not None and z3.is_true(z3.simplify(h[2] == _owner_sid(st, ctx))) for h in (e.held or [])) for e in incs)), ["C20"]))
     oid = Val.id(engine.to_val(st, out))
     wr = [i for i, e in enumerate(st.trace) if e.kind == "write" and e.meth == "_executor" and z3.is_true(z3.simplify(z3.And(e.recv == oid, e.args[0] == ctx["ex"].t)))]
     cl.append(("the returned future is a ThrottleFuture bound to this executor before it becomes reachable (cancellable while queued)", "PC",
@@ -430,3 +439,6 @@ def _post_submit(engine, st, ctx, out):
 
 UNITS.append(Unit("ThrottleExecutor.submit", "throttle.ThrottleExecutor.submit", ["C07", "C01", "C02", "C03", "C06", "C11", "C12", "C20"],
                   _setup_submit, _post_submit, cfg=_cfg_submit, self_cls="ThrottleExecutor"))
+
+REPLAYS = [("C07", "ThrottleExecutor._block_until_ready", "replay/c07_block_none.py"), ("C18", "ThrottleExecutor._block_until_ready", "replay/c07_block_none.py"),
+           ("C20", "ThrottleExecutor._do_cancel", "replay/c20_throttle_queue_cancel.py"), ("C06", "ThrottleExecutor._do_cancel", "replay/c20_throttle_queue_cancel.py")]
